@@ -69,21 +69,8 @@ Definition quick_pre_filter_sel (na : list N) (H P : rgraph) (thr : N) : bool :=
 Definition find_sel (enum : list N -> list N -> list mapping) (c : cfg) (na ea : list N) (H P : rgraph) : list mapping :=
   find enum c (project na ea H) (project na ea P).
 
-(** ---------- observables (same layout as run_set / run_list / run_api of C06_Model.v) ---------- *)
-Definition run_sel_set (na ea : list N) (H P : rgraph) (cfgs : list cfg) : tok :=
-  let H' := project na ea H in
-  let P' := project na ea P in
-  L [ tbool (wfb H' && wfb P'); tcomps (comps H'); tcomps (comps P');
-      tlist (fun c => L [ tbool (quick_pre_filter_sel na H P (c_thr c));
-                          tset tmapping (find_sel (monos_sel na ea H P) c na ea H P) ]) cfgs ].
-
-Definition run_sel_list (na ea : list N) (H P : rgraph) (t : table) (cfgs : list cfg) : tok :=
-  let H' := project na ea H in
-  let P' := project na ea P in
-  L [ tbool (wfb H' && wfb P'); tbool (table_ok2 H' P' t); tcomps (comps H'); tcomps (comps P');
-      tlist (fun c => L [ tbool (quick_pre_filter_sel na H P (c_thr c));
-                          tlist tmapping (find_sel (lookup_or t H' P') c na ea H P) ]) cfgs ].
-
+(** ---------- observables: [run_tr_set] / [run_tr_list] are in model/C06_Trace.v (result + trace of VF2 calls);
+    the call interface (order-insensitive): one entry per call ---------- *)
 Definition tcall_sel (na ea : list N) (H P : rgraph) (c : sarg * option N * option bool * option N * option bool) : tok :=
   let '(s, maxr, strict, thr, pref) := c in
   match find_api (monos_sel na ea H P) s maxr strict thr pref (project na ea H) (project na ea P) with
